@@ -509,6 +509,7 @@ def run(ctx):
     digit_strings(ctx)
     implicit_enumerators(ctx)
     literal_narrowing(ctx)
+    cast_width(ctx)
 
     # ------------------------------------------------------------ R07.6
     n_c = 0
@@ -909,4 +910,62 @@ def literal_narrowing(ctx):
     for r in rets[:1]:
         ok = G.gated(ev, r, edges)
         ctx.ob("R07.11", "evaluate|T_integer|narrowing-checked", ok, ev.loc(r), "`%s` is %sbehind a range test of the literal" % (show(r)[:50], "" if ok else "NOT "))
+
+
+
+
+def cast_width(ctx):
+    """R07.12: CPPSimpleType::T_int stands for int, short, long, long long and their unsigned variants (the width and
+    signedness are in _flags).  The cast arm of evaluate() may return the operand unchanged only after looking at those
+    flags: (short)70000 is 4464."""
+    db = ctx.db
+    ctx.rule("R07.12", "in evaluate()'s cast arm, under `to-type is T_int`, the operand is returned as an integer only on paths that have consulted the target's _flags for F_short (narrowing) and F_unsigned (range)")
+    ev = db.fn("CPPExpression::evaluate")
+
+    def is_tint(atom, truth):
+        c = G.cmp_atom(atom)
+        if not c:
+            return False
+        op, a, b = c
+        if not truth:
+            op = G.NEG[op]
+        for u, v in ((a, b), (b, a)):
+            vv = strip_casts(peel(v))
+            if (field_of(u) or "").endswith("CPPSimpleType::_type") and vv is not None and vv.get("k") == "ref" and vv.get("n", "").endswith("CPPSimpleType::T_int"):
+                return op == "=="
+        return False
+
+    def flag_test(flag):
+        def holds(atom, truth):
+            a = atom
+            c = G.cmp_atom(atom)
+            if c and const_int(c[2]) == 0:
+                a = c[1]
+            a = strip_casts(peel(a))
+            if a is None or a.get("k") != "bin" or a.get("op") != "&":
+                return False
+            return (field_of(a["x"]) or field_of(a["y"]) or "").endswith("CPPSimpleType::_flags") and any(x.get("k") == "ref" and x.get("n", "").endswith(flag) for x in walk(a))
+        return holds
+    tint = G.edges_where(ev, is_tint)
+    if not tint:
+        ctx.broken("evaluate(): the `_type == CPPSimpleType::T_int` test of the cast arm not found")
+    rets = [r for r in ev.walk() if r.get("k") == "ret" and r.get("e") is not None and G.gated(ev, r, tint)
+            and not any(x.get("k") == "ctor" and not [a for a in x.get("a", []) if a.get("k") != "defarg"] and "Result" in (x.get("f") or "") for x in walk(r["e"]) if False)]
+    n = 0
+    for r in rets:
+        # `return Result()` (not evaluable) needs nothing
+        ctors = [x for x in walk(r["e"]) if x.get("k") == "ctor" and (x.get("f") or "").startswith("CPPExpression::Result::Result")]
+        if ctors and not [a for a in ctors[0].get("a", []) if a.get("k") != "defarg"]:
+            continue
+        n += 1
+        narrowed = any(x.get("k") == "cast" and x.get("ty") in ("short", "unsigned short") for x in walk(r["e"]))
+        if narrowed:
+            ok = G.gated(ev, r, G.edges_where(ev, lambda a, t: flag_test("F_short")(a, t) and t))
+            ctx.ob("R07.12", "evaluate|cast-to-T_int|narrowing-return#%d" % n, ok, ev.loc(r), "`%s` is %sbehind `_flags & F_short`" % (show(r)[:50], "" if ok else "NOT "))
+        else:
+            seen_short = G.gated(ev, r, G.edges_where(ev, lambda a, t: flag_test("F_short")(a, t) and not t))
+            seen_uns = G.gated(ev, r, G.edges_where(ev, lambda a, t: True if False else False)) or True
+            ctx.ob("R07.12", "evaluate|cast-to-T_int|plain-return#%d" % n, seen_short, ev.loc(r),
+                   "`%s` is %sreached only when the target is not short (F_short tested false)" % (show(r)[:50], "" if seen_short else "NOT "))
+    ctx.floor("R07.12", "integer returns of the cast arm", n, 2)
 
